@@ -47,7 +47,7 @@ where
     let opts = any_options::<M>();
     let r = m.init(&mut ctl, &mut Clock(wp), &opts);
     let mut witness = 0u8;
-    assert!(world.ops_after_fail == 0, "[C12] no bus operation after the failing one");
+    crate::indep! { assert!(world.ops_after_fail == 0, "[C12] no bus operation after the failing one"); }
     if supported_today && !world.failed {
         assert!(r.is_ok(), "[C11] supported pairing initialises without a fault");
     }
@@ -98,9 +98,9 @@ where
         .refresh_order(opts.refresh_order)
         .reset_pin(Rst(wp))
         .init(&mut Clock(wp));
-    assert!(world.ops_after_fail == 0, "[C12] no pin or bus operation after the failing one");
-    assert!(world.bus_while_rst_low == 0, "[C17] nothing on the bus while the reset pin is low");
-    assert!(world.bus_before_rst == 0, "[C17] nothing on the bus before the reset pulse");
+    crate::indep! { assert!(world.ops_after_fail == 0, "[C12] no pin or bus operation after the failing one"); }
+    crate::indep! { assert!(world.bus_while_rst_low == 0, "[C17] nothing on the bus while the reset pin is low"); }
+    crate::indep! { assert!(world.bus_before_rst == 0, "[C17] nothing on the bus before the reset pulse"); }
     match r {
         Ok(d) => {
             assert!(!world.failed, "[C12] a failed operation must be reported");
@@ -115,7 +115,7 @@ where
         }
         Err(InitError::Interface(e)) => {
             assert!(world.failed && e == E(E_IFACE), "[C12] interface error wrapped as InitError::Interface");
-            assert!(world.rst_calls == 2, "[C17] bus traffic only after the reset pulse");
+            assert!(world.rst_calls == 2 && world.rst_final_high, "[C17] bus traffic only after a complete reset pulse, and the pin is left high also when init fails later");
             kani::cover!(true, "cover: interface fault");
         }
         Err(InitError::ResetPin(e)) => {
@@ -146,7 +146,7 @@ where
         .invert_colors(opts.invert_colors)
         .refresh_order(opts.refresh_order)
         .init(&mut Clock(wp));
-    assert!(world.ops_after_fail == 0, "[C12] no bus operation after the failing one");
+    crate::indep! { assert!(world.ops_after_fail == 0, "[C12] no bus operation after the failing one"); }
     match r {
         Ok(d) => {
             assert!(!world.failed, "[C12] a failed operation must be reported");
